@@ -560,6 +560,7 @@ type stageExec struct {
 	versions  map[string]map[string]bool // name -> set of model hash tokens announced for it
 	corrupted map[string]bool
 	acked     map[string][][2]int64 // name|md5 -> acknowledged ranges
+	oldLogged map[string]int64      // name|md5|renamed -> time of a record written by `oldlog`
 	prevOf    map[string]string     // name|hashtoken -> predecessor announced last for that version
 	gaveUp    bool                  // cleanwaiting ran: the order may have been given up for cycles
 	crashes   int                   // crash / cut operations in this case
@@ -572,7 +573,7 @@ func newStageExec() *stageExec {
 	return &stageExec{rig: rig, err: err, md5Of: map[string]string{}, tokOf: map[string]string{},
 		names: map[string]bool{}, targets: map[string]bool{}, handles: map[string]*pendingRecv{},
 		kinds: map[string]bool{}, delivered: map[string][]byte{}, versions: map[string]map[string]bool{}, corrupted: map[string]bool{},
-		acked: map[string][][2]int64{}, prevOf: map[string]string{}, confirmed: map[string]bool{}, consumed: map[string]bool{}}
+		acked: map[string][][2]int64{}, oldLogged: map[string]int64{}, prevOf: map[string]string{}, confirmed: map[string]bool{}, consumed: map[string]bool{}}
 }
 
 func parseBodyTok(s string) ([]byte, bool) {
@@ -1009,6 +1010,30 @@ func (e *stageExec) do1(op []string) string {
 		r.st.VerifCleanStrays()
 		e.oracleClean(before, listTree(filepath.Dir(r.root)))
 		return "ok"
+	case len(op) == 2 && op[0] == "cleancache":
+		r.st.VerifCleanCache()
+		return "ok"
+	case len(op) == 6 && op[0] == "oldlog":
+		sz, err := strconv.ParseInt(op[4], 10, 64)
+		t, ok := e.tm(op[5])
+		if err != nil || !ok {
+			return "bad-op"
+		}
+		name := unesc(op[1])
+		e.names[name] = true
+		tok := unesc(op[3])
+		e.versions[name] = map[string]bool{tok: true}
+		tu := t.UTC()
+		dir := filepath.Join(r.logdir, fmt.Sprintf("%04d%02d", tu.Year(), int(tu.Month())))
+		os.MkdirAll(dir, 0o755)
+		fh, err := os.OpenFile(filepath.Join(dir, fmt.Sprintf("%02d", tu.Day())), os.O_APPEND|os.O_CREATE|os.O_WRONLY, 0o644)
+		if err != nil {
+			return "harness-error " + esc(err.Error())
+		}
+		fmt.Fprintf(fh, "%s:%s:%s:%d:%d:\n", name, unesc(op[2]), e.realHash(tok), sz, t.Unix())
+		fh.Close()
+		e.oldLogged[name+"|"+e.realHash(tok)+"|"+unesc(op[2])] = t.Unix()
+		return "ok"
 	case len(op) == 1 && op[0] == "cleanwaiting":
 		e.gaveUp = true
 		r.st.VerifCleanWaiting()
@@ -1036,6 +1061,9 @@ func (e *stageExec) do1(op []string) string {
 		ans := n == 1
 		if ans {
 			e.oracleReceived(name, unesc(op[4]), b, en)
+		} else if lt, ok := e.oldLogged[name+"|"+e.realHash(unesc(op[4]))+"|"+unesc(op[2])]; ok && lt >= ft.Unix() && lt >= time.Now().Unix()-29*86400 {
+			// C05: a delivery known from the log (not older than the announced file) must be remembered
+			e.fails = append(e.fails, fmt.Sprintf("received-forgot-delivery: %s (%s) was delivered and logged by an earlier run, but the query answers 'not received'", name, unesc(op[4])))
 		}
 		return strconv.FormatBool(ans)
 	case len(op) == 4 && op[0] == "status":
